@@ -26,12 +26,12 @@ FLOORS = {
               "counters": {"delimiter_compares": 800, "linestatement_compares": 300,
                            "template_ctor_compares": 300, "overlay_compares": 300,
                            "isolation_rerenders": 150, "lexer_configs_interleaved": 60,
-                           "pair_order_checks": 60}},
+                           "pair_order_checks": 60, "overlay_divergent_option_checks": 100}},
     "thorough": {"evaluations": 60000, "distinct": 6000,
                  "counters": {"delimiter_compares": 16000, "linestatement_compares": 6000,
                               "template_ctor_compares": 6000, "overlay_compares": 6000,
                               "isolation_rerenders": 3000, "lexer_configs_interleaved": 60,
-                              "pair_order_checks": 60}},
+                              "pair_order_checks": 60, "overlay_divergent_option_checks": 100}},
 }
 
 SYNTAXES = {
@@ -366,7 +366,58 @@ PAIR_DIMS = [
     ("variable_start_string", {"variable_start_string": "${", "variable_end_string": "}"}, "${ 1 }{{ 2 }}"),
     ("block_start_string", {"block_start_string": "<%", "block_end_string": "%>"}, "<% if true %>a<% endif %>{% raw %}b{% endraw %}"),
     ("comment_start_string", {"comment_start_string": "<#", "comment_end_string": "#>"}, "a<# c #>b{# d #}"),
+    # environments that differ in exactly ONE delimiter string
+    ("only:variable_end_string", {"variable_end_string": "}}$"}, "{{ 1 }}$x{{ 2 }}$"),
+    ("only:variable_start_string", {"variable_start_string": "${{"}, "${{ 1 }}y"),
+    ("only:block_end_string", {"block_end_string": "%}$"}, "{% if true %}$a{% endif %}$"),
+    ("only:block_start_string", {"block_start_string": "${%"}, "${% if true %}a${% endif %}"),
+    ("only:comment_end_string", {"comment_end_string": "#}$"}, "a{# c #}$b"),
+    ("only:comment_start_string", {"comment_start_string": "${#"}, "a${# c #}b"),
 ]
+
+OVERLAY_DIMS = [d for d in PAIR_DIMS if not d[0].startswith("only:")]
+
+
+def check_overlays(ctx, rng):
+    """An overlay with DIFFERENT options and the environment it came from load the
+    same template name from the same loader; whatever the order, each must render
+    the name exactly as a fresh, unrelated environment with its options does."""
+    import jinja2
+
+    for name, delta, src in OVERLAY_DIMS:
+        def fresh(opts):
+            def f():
+                try:
+                    return jinja2.Environment(loader=jinja2.DictLoader({"t": src}), **opts).get_template("t").render()
+                except jinja2.TemplateSyntaxError:
+                    return "TSE"
+            return util.capture(f)
+
+        want_base, want_ov = fresh({}), fresh(delta)
+        for order in ("base-first", "overlay-first"):
+            def get(e):
+                def f():
+                    try:
+                        return e.get_template("t").render()
+                    except jinja2.TemplateSyntaxError:
+                        return "TSE"
+                return util.capture(f)
+
+            base = jinja2.Environment(loader=jinja2.DictLoader({"t": src}))
+            ov = base.overlay(**delta)
+            if order == "base-first":
+                b, o = get(base), get(ov)
+            else:
+                o, b = get(ov), get(base)
+            again_b, again_o = get(base), get(ov)
+            ctx.ev(4)
+            ctx.count("overlay_divergent_option_checks")
+            if not (same(b, want_base) and same(o, want_ov) and same(again_b, want_base) and same(again_o, want_ov)):
+                ctx.violation("overlay:shares-state:" + name,
+                              f"{order}: base {b!r}/{again_b!r} (want {want_base!r}), overlay {o!r}/{again_o!r} "
+                              f"(want {want_ov!r}) for {src!r} with overlay options {delta}",
+                              {"kind": "overlaydim", "dim": name})
+        ctx.dist(["overlaydim", name])
 
 
 def check_pairs(ctx, rng, churn):
@@ -413,6 +464,7 @@ def run(ctx):
     churn = make_churn(ctx, rng)
     i = 0
     check_pairs(ctx, rng, churn)
+    check_overlays(ctx, rng)
     while ctx.more(i, n, floor=40):
         case = corpus.gen_case(rng)
         check_case(ctx, case, rng, churn)
@@ -426,6 +478,9 @@ def replay(ctx, case):
     import random
 
     rng = random.Random(0)
+    if case.get("kind") == "overlaydim":
+        check_overlays(ctx, rng)
+        return
     if case.get("kind") == "pair":
         check_pairs(ctx, rng, make_churn(ctx, rng))
         return
